@@ -11,7 +11,7 @@ CHECKS = {
                 note="Sampling of trees and memoized subsets. Invocations are compared by (function, argument hash)."),
     "C15": dict(engine="calltree", level="exploration", design="4/C15, 3.5",
                 technique="deterministic simulation: twin worlds from the same pre-state (batch vs. element-wise) compared slot by slot, store by store and execution by execution",
-                text="World A evaluates call_batch (raise_first_exception true/false) or map_over_range over the root of a generated call tree; world B evaluates the same elements one by one in order. Batches have length 0-8 with duplicates, failing elements, a drawn pre-memoized subset, partial-application prefixes, cache on/off and an optional restart before the batch. Results must agree position by position (exceptions by class and message; the first failing slot is what is raised), each distinct element's body runs at most once and never for a pre-memoized element, and the final stores must be equal as sets of (name, argument hash, result type, value, invocation list).",
+                text="World A evaluates call_batch (raise_first_exception true/false) or map_over_range (range presented as list, tuple, range, generator, iterator or map object) over the root of a generated call tree; world B evaluates the same elements one by one in order. Batches have length 0-8 with duplicates, failing elements, a drawn pre-memoized subset, partial-application prefixes, cache on/off and an optional restart before the batch. Results must agree position by position (exceptions by class and message; the first failing slot is what is raised), each distinct element's body runs at most once and never for a pre-memoized element, and the final stores must be equal as sets of (name, argument hash, result type, value, invocation list).",
                 note="Sampling."),
     "C16": dict(engine="calltree", level="exploration", design="4/C16, 3.5",
                 technique="deterministic simulation: repeated runs of generated call trees under sequences of context arguments, checked against an inheritance/identity reference model incl. store probes under every context",
@@ -47,7 +47,7 @@ CHECKS = {
                 note="Sampling; reference graph and expected outcome come from ~80 lines of model code in sim/progen.py."),
     "C09": dict(engine="sched", level="exploration", design="4/C09, 2.5",
                 technique="deterministic simulation: seeded scheduler over real threads (baton passing, settrace pre-emption points, cooperative lock wrapper); random, PCT and single-pre-emption-sweep schedules",
-                text="2-3 real threads run call scripts (single calls and call_batch, equal and different keys, nested DAG) on cold store / warm store + cold cache / warm cache over filesystem, filesystem + 5 KiB cache and memory backends. A seeded scheduler decides at every call event in twosigma.memento and every line of the runner, call-stack and storage modules which thread runs next (random pre-emption, PCT d<=3, and systematic single-pre-emption sweeps). Each schedule must give every caller the sequential value, let no exception escape, run each not-yet-memoized distinct call's body exactly once (zero when warm), leave usage counter = sum of resident sizes <= budget, queue = key set without duplicates, correct resident values, and finish without deadlock within the step cap.",
+                text="2-3 real threads run call scripts (single calls, call_batch, calls under context arguments, ignore_result; equal and different keys; a nested DAG with functions that raise, catch a callee's exception or return partitions, some defined before their callees; optionally a stale version cache) on cold store / warm store + cold cache / warm cache over filesystem, filesystem + 5 KiB cache and memory backends. A seeded scheduler decides at every call event in twosigma.memento and every line of the runner, call-stack and storage modules which thread runs next (random pre-emption, PCT d<=3, and systematic single-pre-emption sweeps). Each schedule must give every caller the sequential value, let no exception escape, give every caller of a raising function that function's own exception, run each not-yet-memoized distinct call's body exactly once per (function, argument, context) (zero when warm), leave usage counter = sum of resident sizes <= budget, queue = key set without duplicates, correct resident values, and finish without deadlock within the step cap.",
                 note="Sampling of schedules (systematic only for one pre-emption on five base scenarios). Line-level, not bytecode-level, pre-emption. User function bodies are atomic."),
     "C05": dict(engine="store", level="exploration", design="4/C05, 3.2",
                 technique="deterministic simulation: seeded operation histories on three backends in lock-step vs. a dictionary reference model, restarts as operations",
@@ -67,7 +67,7 @@ CHECKS = {
                 note="Sampling. Trusts CPython audit events to cover all file mutations."),
     "C08": dict(engine="crash", level="fault_enumeration", design="4/C08, 3.3",
                 technique="deterministic simulation: fault injection at every mutating filesystem event (audit-hook seam), real process death, recovery lifetimes",
-                text="Every mutating filesystem event of eight memoization scenarios (x cache on/off x shared/separate metadata path) is hit by every applicable fault variant (crash before, crash after open, torn write + crash, errno before, short write + errno, error on first write); afterwards fault-free process lifetimes must return correct values, raise nothing, recompute each call at most once and then be served from the store. Single faults are enumerated completely; the thorough tier adds seeded fault sequences of length 2-3 including crash during recovery.",
+                text="Every mutating filesystem event of sixteen memoization scenarios - first write, deduplicated blob, partition, exception, null, key override, re-memoization after forget, nested memoizations inside one call, call_batch (cold and partly memoized), DataFrame / ndarray / nested-dict results, partition merged onto a parent - (x cache on/off x shared/separate metadata path) is hit by every applicable fault variant (crash before, crash after open, torn write + crash, errno before, short write + errno, error on first write); afterwards fault-free process lifetimes must return correct values, raise nothing, recompute each call at most once and then be served from the store. Single faults are enumerated completely; the thorough tier adds seeded fault sequences of length 2-3 including crash during recovery.",
                 note="Trusts CPython audit events to cover all file mutations, tmpfs semantics, process death = os._exit (no power-loss model)."),
 }
 
